@@ -397,4 +397,76 @@ def ctorWorkflowList (O : Oracle) (j : JVal) : Res JVal :=
     .ok (.obj ws)
   else .defErr "schema"
 
+/-! ## ActionSpec, ActionListSpec (ad-hoc actions) -/
+
+def actionBody (O : Oracle) (kvs : List (Key × JVal)) : Res JVal :=
+  -- ActionSpec.validate_schema after the schema
+  (parseCmd O (getD kvs "base" .null)).bind fun r0 =>
+  (checkExpr O (.obj r0.2)).bind fun _ =>
+  (checkExpr O (getD kvs "base-input" (.obj []))).bind fun _ =>
+  (match getD kvs "output" .null with
+    | .str s => checkExpr O (.str s)
+    | _ => Res.ok ()).bind fun _ =>
+  -- ActionSpec.__init__
+  (getItem kvs "name").bind fun name =>
+  (getItem kvs "base").bind fun base =>
+  (dictFromEntries (getD kvs "input" (.arr []))).bind fun input =>
+  (parseCmd O base).bind fun r =>
+  (match getD kvs "base-input" (.obj []) with
+    | .obj bi => Res.ok (JVal.obj (mergeParams bi r.2))
+    | other => if r.2.isEmpty then Res.ok other else Res.stuck "TypeError: merge_dicts on a non-dict").bind fun bi =>
+  .ok (obj [("name", name), ("base", .str r.1), ("base-input", bi), ("input", .obj input),
+            ("output", getD kvs "output" .null)])
+
+/-- `instantiate_spec(ActionSpec, data, validate=True)` (no polymorphic key) -/
+def ctorAction (O : Oracle) (j : JVal) : Res JVal :=
+  if accepts ActionSpec j then (asDict "get" j).bind (actionBody O) else .defErr "schema"
+
+/-- `ActionListSpec(data, validate=True)` (`BaseListSpec`) -/
+def ctorActionList (O : Oracle) (j : JVal) : Res JVal :=
+  if accepts ActionListSpec j then
+    (asDict "keys" j).bind fun kvs =>
+    (guardDef (kvs.all (fun kv => match kv.1 with | .s _ => true | .ns _ => false)) "Name must be a string").bind fun _ =>
+    (guardDef (2 ≤ kvs.length) "At least one item must be in the list").bind fun _ =>
+    (mapRes (fun kv => match kv.2 with
+      | .obj m => (ctorAction O (.obj (setKey (.s "version") (.str "2.0") (setKey (.s "name") (keyVal kv.1) m)))).bind
+          (fun r => .ok (kv.1, r))
+      | _ => .stuck "TypeError: object does not support item assignment") (listSpecMembers kvs)).bind fun as =>
+    .ok (.obj as)
+  else .defErr "schema"
+
+/-! ## WorkbookSpec -/
+
+/-- `BaseSpec._inject_version([k])`: `if isinstance(prop_data, dict): prop_data['version'] = '2.0'` -/
+def injectVersion (v : JVal) : JVal :=
+  match v with
+  | .obj m => .obj (setKey (.s "version") (.str "2.0") m)
+  | other => other
+
+/-- `_spec_property(section, ActionSpecList / WorkflowSpecList)`: `BaseSpecList.__init__` -/
+def specList (ctor : JVal → Res JVal) (sect : JVal) : Res JVal :=
+  (asDict "items" sect).bind fun skvs =>
+  (mapRes (fun kv => match kv.2 with
+    | .obj m => (ctor (.obj (setKey (.s "version") (.str "2.0") (setKey (.s "name") (keyVal kv.1) m)))).bind
+        (fun r => .ok (kv.1, r))
+    | v => (ctor v).bind (fun r => .ok (kv.1, r))) (specListMembers skvs)).bind fun ms => .ok (.obj ms)
+
+def workbookBody (O : Oracle) (kvs : List (Key × JVal)) : Res JVal :=
+  let actions := (lookup "actions" kvs).map injectVersion
+  let workflows := (lookup "workflows" kvs).map injectVersion
+  (getItem kvs "name").bind fun name =>
+  (match actions with
+    | none => Res.ok JVal.null
+    | some .null => Res.ok JVal.null
+    | some v => specList (ctorAction O) v).bind fun acts =>
+  (match workflows with
+    | none => Res.ok JVal.null
+    | some .null => Res.ok JVal.null
+    | some v => specList (ctorWorkflow O) v).bind fun wfs =>
+  .ok (obj [("name", name), ("actions", acts), ("workflows", wfs)])
+
+/-- `instantiate_spec(WorkbookSpec, data, validate=True)` (workflows up to their graph checks) -/
+def ctorWorkbook (O : Oracle) (j : JVal) : Res JVal :=
+  if accepts WorkbookSpec j then (asDict "get" j).bind (workbookBody O) else .defErr "schema"
+
 end Mistral.SchemaCtor
